@@ -215,6 +215,88 @@ def _two_systems(args):
     return out
 
 
+def _delete_owner(args):
+    """an owner holding the same object twice in a list (or several objects) is deleted: every forward link it held is gone afterwards,
+    and what it alone referenced can be deleted in turn"""
+    kind, = args
+    H.deterministic_ids(6)
+    out = {"topology": "delete-owner:" + kind, "ops": [kind], "status": "ok", "fails": [], "kinds": ["delete-owner"]}
+    try:
+        from efootprint.core.usage.usage_journey import UsageJourney
+        from efootprint.core.usage.usage_journey_step import UsageJourneyStep
+        from efootprint.core.usage.job import Job
+        T = H.topologies()
+        b = H.build(T["two_independent_chains"])
+        spec = b.spec
+        namemir = {k: [b[x].name for x in v] for k, v in mirror_of(spec).items()}
+        orphan = None
+        if kind == "journey-with-repeated-step":
+            owner = UsageJourney("draft journey", uj_steps=[b["step0"], b["step0"], b["step1"]])
+        elif kind == "journey-with-distinct-steps":
+            owner = UsageJourney("draft journey", uj_steps=[b["step0"], b["step1"]])
+        elif kind == "step-with-job-appended-twice":
+            orphan = Job("poll", server=b["srv0"], **{k: v for k, v in Job.default_values().items()})
+            owner = UsageJourneyStep("draft step", user_time_spent=Q_((1, "min")), jobs=[orphan]); owner.jobs.append(orphan)
+        elif kind == "step-with-repeated-job-at-construction":
+            orphan = Job("poll", server=b["srv0"], **{k: v for k, v in Job.default_values().items()})
+            owner = UsageJourneyStep("draft step", user_time_spent=Q_((1, "min")), jobs=[orphan, b["job0"], orphan])
+        else:
+            raise KeyError(kind)
+        owner.self_delete()
+        f = check_links(b, namemir, extra_objs=[orphan] if orphan is not None else ())
+        if f: out["status"] = "inconsistent"; out["fails"] = f; return out
+        if orphan is not None:
+            try:
+                orphan.self_delete()
+            except PermissionError as ex:
+                out["status"] = "unreferenced-object-cannot-be-deleted"; out["fails"] = [str(ex)[:120]]; return out
+            f = check_links(b, namemir)
+            if f: out["status"] = "inconsistent"; out["fails"] = f
+    except Exception:
+        out["status"] = "harness-error"; out["error"] = traceback.format_exc()[-700:]
+    return out
+
+
+def _refused_system(args):
+    """creating a second system around an object that already belongs to a system is refused and leaves no trace"""
+    shared, = args
+    H.deterministic_ids(6)
+    out = {"topology": "refused-system:" + shared, "ops": [shared], "status": "ok", "fails": [], "kinds": ["refused-system"]}
+    try:
+        from efootprint.core.system import System
+        T = H.topologies()
+        a = H.build(T["single"])
+        spec2 = copy.deepcopy(T["single"])
+        b2 = H.build(spec2, compute=False)
+        # B's usage pattern is constructed around one object of system A (construction recomputes nothing)
+        from efootprint.core.usage.usage_pattern import UsagePattern
+        parts = {"journey": b2["uj0"], "device": b2["dev0"], "network": b2["net0"], "country": b2["c0"]}
+        parts[shared] = {"journey": a["uj0"], "device": a["dev0"], "network": a["net0"], "country": a["c0"]}[shared]
+        up_b = UsagePattern("up B", parts["journey"], [parts["device"]], parts["network"], parts["country"],
+                            H.SourceHourlyValues(b2["up0"].hourly_usage_journey_starts.value.copy()))
+        b2.obj["upB"] = up_b
+        mir_a = {k: [a[x].name for x in v] for k, v in mirror_of(a.spec).items()}
+        try:
+            System("system B", [up_b])
+        except Exception:
+            pass
+        else:
+            out["status"] = "ok"; return out          # accepted (shared countries / devices may be legal): nothing to check here
+        f = check_links(a, mir_a, extra_objs=[raw(o) for o in b2.obj.values()])
+        if f: out["status"] = "inconsistent"; out["fails"] = f; return out
+        for o in list(a.obj.values()) + list(b2.obj.values()):
+            o = raw(o)
+            if type(o).__name__ == "System": continue
+            names = sorted(raw(s).name for s in o.systems)
+            if "system B" in names: out["status"] = "refused-system-still-registered"; out["fails"].append(f"{o.name}.systems={names}")
+    except Exception:
+        out["status"] = "harness-error"; out["error"] = traceback.format_exc()[-700:]
+    return out
+
+
+def Q_(pair): return H.Q(pair)
+
+
 def classify(r):
     ks = r["kinds"]
     last = ks[-1] if ks else ""
@@ -252,6 +334,8 @@ def run(tier, seed, procs=16):
     items += [("two_independent_chains", spec, p, seed) for p in pairs]
     res = H.run_parallel(_history, items, procs)
     res += [_two_systems((t,)) for t in ("network", "job", "journey", "server")]
+    res += [_delete_owner((k,)) for k in ("journey-with-repeated-step", "journey-with-distinct-steps", "step-with-job-appended-twice", "step-with-repeated-job-at-construction")]
+    res += [_refused_system((k,)) for k in ("network", "journey", "device", "country")]
     viol, samples, nontrivial = [], [], set()
     for r in res:
         if r["status"] == "harness-error": raise RuntimeError("bounded harness error: " + r.get("error", ""))
@@ -265,4 +349,4 @@ def run(tier, seed, procs=16):
             "rule": "one case = (topology, history of 1-3 link/list operations from the alphabet append/insert/extend/+=/*=/pop/remove/del/item assignment/clear/slice/assign list/assign object, "
                     "with present, absent, duplicate and no-op arguments); after every operation forward links are compared with every reverse look-up, list contents with a python mirror list",
             "samples": samples, "violations": viol, "exhaustive": False,
-            "bound": f"4 topologies, all single operations, {150 if tier == 'quick' else 1200} random histories of length 2-3 each (seed {seed}), 4 cross-system links"}
+            "bound": f"4 topologies, all single operations, {150 if tier == 'quick' else 1200} random histories of length 2-3 each (seed {seed}), 4 cross-system links, 4 owner deletions (repeated / distinct members), 4 refused system creations"}
